@@ -207,6 +207,15 @@ func PopulateStructFields(m map[string]any, data any) {
 		rv = rv.Elem()
 	}
 
+	// A typed map (map[string]string, ...) as root data: its keys are names, like for Lookup
+	if rv.Kind() == reflect.Map && rv.Type().Key().Kind() == reflect.String {
+		iter := rv.MapRange()
+		for iter.Next() {
+			m[iter.Key().String()] = iter.Value().Interface()
+		}
+		return
+	}
+
 	if rv.Kind() != reflect.Struct {
 		return
 	}
